@@ -379,6 +379,30 @@ func (s *bcServer) answer(kind string) bool {
 			e.Corr = int(r.corr)
 			s.stallTag = r.tag
 		case "runt":
+			if s.rlen < 0 {
+				// a response header that does not decode although the length is fine: flexible (v1)
+				// header with a NON-EMPTY tagged-field section, followed by the ordinary body.
+				// Variants: -1 one small tagged field; -2 multi-byte varint field count; -3 one tagged
+				// field crafted so that tag bytes + body would decode as a response if the tag section
+				// were taken for the start of the body
+				var tags []byte
+				switch s.rlen {
+				case -1:
+					tags = []byte{0x01, 0x00, 0x02, 0xaa, 0xbb}
+				case -2:
+					tags = []byte{0x80, 0x01, 0x00, 0x01, 0x07}
+				default:
+					tags = []byte{0x01, 0x00, 0x05, 0x00, 0x00, 0x00, 0x29, 0x08}
+				}
+				body := s.body(r.tag)
+				out = make([]byte, 0, 8+len(tags)+len(body))
+				out = binary.BigEndian.AppendUint32(out, uint32(4+len(tags)+len(body)))
+				out = binary.BigEndian.AppendUint32(out, uint32(r.corr))
+				out = append(append(out, tags...), body...)
+				e.Kind, e.Corr = "hdrtags", int(r.corr)
+				e.Err = strconv.Itoa(s.rlen)
+				break
+			}
 			// length field <= 4: shorter than any response header
 			out = bcShortFrame(s.rlen, r.corr)
 			if s.rlen >= 4 {
